@@ -232,33 +232,67 @@ class _Pseudo:
         self.pseudo = True
 
 
-def desugar_any_all(call: ast.Call) -> Optional[ast.FunctionDef]:
-    """``any(E for T in I if C)`` -> ``for T in I: if C: if E: return True`` / ``return False`` (all(): dually).
-    Only the single-``for`` form; evaluation order and short-circuiting are those of the built-in."""
-    if not (isinstance(call.func, ast.Name) and call.func.id in ("any", "all") and len(call.args) == 1 and not call.keywords):
-        return None
-    g = call.args[0]
-    if not isinstance(g, (ast.GeneratorExp, ast.ListComp)) or len(g.generators) != 1 or g.generators[0].is_async:
-        return None
-    gen = g.generators[0]
-    ln = getattr(call, "lineno", 0)
-    is_any = call.func.id == "any"
-    test = g.elt if is_any else ast.UnaryOp(op=ast.Not(), operand=g.elt)
-    inner: ast.stmt = ast.If(test=test, body=[ast.Return(value=ast.Constant(value=is_any))], orelse=[])
-    for c in reversed(gen.ifs):
-        inner = ast.If(test=c, body=[inner], orelse=[])
-    loop = ast.For(target=gen.target, iter=gen.iter, body=[inner], orelse=[])
-    fn = ast.FunctionDef(name="__%s__" % call.func.id,
-                         args=ast.arguments(posonlyargs=[], args=[], vararg=None, kwonlyargs=[], kw_defaults=[], kwarg=None, defaults=[]),
-                         body=[loop, ast.Return(value=ast.Constant(value=not is_any))], decorator_list=[], returns=None)
-    for x in ast.walk(fn):
+def _fix_locs(root: ast.AST, ln: int):
+    for x in ast.walk(root):
         if not hasattr(x, "lineno"):
             x.lineno = ln
             x.col_offset = 0
         if not hasattr(x, "end_lineno"):
             x.end_lineno = getattr(x, "lineno", ln)
             x.end_col_offset = 0
+
+
+def _loop_over(gen: ast.comprehension, inner: ast.stmt) -> ast.For:
+    for c in reversed(gen.ifs):
+        inner = ast.If(test=c, body=[inner], orelse=[])
+    return ast.For(target=gen.target, iter=gen.iter, body=[inner], orelse=[])
+
+
+def desugar_any_all(call: ast.Call) -> Optional[ast.FunctionDef]:
+    """The loop a built-in over a generator expression stands for (single ``for`` clause only):
+
+    ``any(E for T in I if C)``   -> ``for T in I: if C: if E: return True`` / ``return False`` (all(): dually)
+    ``next((E for T in I if C), D)`` -> ``for T in I: if C: return E`` / ``return D`` (``raise StopIteration`` without D)
+
+    Evaluation order and short-circuiting are those of the built-in."""
+    if not (isinstance(call.func, ast.Name) and call.func.id in ("any", "all", "next") and not call.keywords and call.args):
+        return None
+    g = call.args[0]
+    if not isinstance(g, (ast.GeneratorExp, ast.ListComp)) or len(g.generators) != 1 or g.generators[0].is_async:
+        return None
+    gen = g.generators[0]
+    ln = getattr(call, "lineno", 0)
+    kind = call.func.id
+    if kind == "next":
+        if len(call.args) > 2 or isinstance(g, ast.ListComp):
+            return None
+        loop = _loop_over(gen, ast.Return(value=g.elt))
+        tail: ast.stmt = ast.Return(value=call.args[1]) if len(call.args) == 2 else \
+            ast.Raise(exc=ast.Call(func=ast.Name(id="StopIteration", ctx=ast.Load()), args=[], keywords=[]), cause=None)
+    else:
+        if len(call.args) != 1:
+            return None
+        is_any = kind == "any"
+        test = g.elt if is_any else ast.UnaryOp(op=ast.Not(), operand=g.elt)
+        loop = _loop_over(gen, ast.If(test=test, body=[ast.Return(value=ast.Constant(value=is_any))], orelse=[]))
+        tail = ast.Return(value=ast.Constant(value=not is_any))
+    fn = ast.FunctionDef(name="__%s__" % kind,
+                         args=ast.arguments(posonlyargs=[], args=[], vararg=None, kwonlyargs=[], kw_defaults=[], kwarg=None, defaults=[]),
+                         body=[loop, tail], decorator_list=[], returns=None)
+    _fix_locs(fn, ln)
     return fn
+
+
+def desugar_yield_from(s: ast.stmt) -> Optional[List[ast.stmt]]:
+    """``yield from (E for T in I if C)`` -> ``for T in I: if C: yield E``."""
+    if not (isinstance(s, ast.Expr) and isinstance(s.value, ast.YieldFrom)):
+        return None
+    g = s.value.value
+    if not isinstance(g, (ast.GeneratorExp, ast.ListComp)) or len(g.generators) != 1 or g.generators[0].is_async:
+        return None
+    loop = _loop_over(g.generators[0], ast.Expr(value=ast.Yield(value=g.elt)))
+    _fix_locs(loop, s.lineno)
+    return [loop]
 
 
 def genexp_to_generator(fn: ast.FunctionDef) -> Optional[ast.FunctionDef]:
@@ -298,7 +332,15 @@ class Inliner:
         self.declined_sites: Dict[str, int] = {}   # helper qualname -> number of call sites left as calls
 
     def is_new(self, fi: FuncInfo) -> bool:
-        return self.reference is not None and fi.qualname not in self.reference
+        if self.reference is None or fi.qualname in self.reference:
+            return False
+        if getattr(fi, "cls", None) is not None:
+            # a method the reference tree defines elsewhere in the same class hierarchy (pulled up / pushed down):
+            # still an anchor of the rules, not a helper
+            related = list(fi.cls.mro) + fi.cls.all_subclasses()
+            if any((c.qualname + "." + fi.name) in self.reference for c in related):
+                return False
+        return True
 
     # -- which call may be inlined
     def target(self, root: FuncInfo, site: ast.AST, stack: List[str], usage: str) -> Optional[FuncInfo]:
@@ -347,8 +389,6 @@ class Inliner:
         return t
 
     def _why_not(self, root, t: FuncInfo, site, call, stack, usage) -> Optional[str]:
-        if t.module is not root.module:
-            return "defined in another module"
         if t.qualname in stack or t is root:
             return "recursive"
         if len(stack) >= MAX_DEPTH:
